@@ -43,5 +43,14 @@ for f in sorted(glob.glob(os.path.join(V, "findings", "*.json"))):
     for e in json.load(open(f)).get("findings", []):
         if not any(o.get("property") == e.get("property") and o.get("key") == e.get("key") for o in kf["findings"]):
             kf["findings"].append(e)
+log = subprocess.run(["git", "-C", "/repo", "log", "--format=%h\t%s"], capture_output=True, text=True).stdout.splitlines()
+for e in kf["findings"]:
+    if e.get("status") == "fixed":
+        c = e.get("commit", "")
+        hit = next((l.split("\t")[0] for l in log if c and (l.split("\t")[0] == c[:7] or l.split("\t")[1].startswith(c[:60]))), None)
+        if hit:
+            e["repo_commit"] = hit
+        else:
+            e["repo_commit"] = "NOT FOUND IN /repo"
 json.dump(kf, open(os.path.join(V, "known_findings.json"), "w"), indent=1)
 print("claimed:", served)
